@@ -1,4 +1,5 @@
 import Invoke.Model.Collection
+import Invoke.Model.CollectionOps
 import Driver.Util
 /-! Line protocol for the `Collection` model (C10, C17).
 
@@ -6,7 +7,10 @@ import Driver.Util
     tree  := '(' name ';' ad ';' default ';' cfg ';' tasks ';' aliases ';' '[' (key '=' tree)* ']' ')'
              name/default: `~` = None;  tasks `key:id&…`;  aliases `alias>key&…`
     cfg   := '{' (key ':' val (',' key ':' val)*)? '}' ;  val := cfg | i<int> | b0 | b1 | n | s<codes>
-    query := N | P | F | T | J | W | U | D | L<name> | C<name> | X<0|1><name> | M<ad>;<name|~>;<mod>;<cfg> -/
+    query := N | P | F | T | J | W | U | D | L<name> | C<name> | X<0|1><name> | M<ad>;<name|~>;<mod>;<cfg>
+           | H<step>('|'<step>)*   (C17: a history on the tree; answer = the lookups' answers joined by '|')
+    step  := 'l' addr '@' name | 'c' addr '@' cfg | 't' addr '@' key ':' id ':' alias(','alias)* ':' <0|1>
+           | 'k' addr '@' key ':' <0|1> ':' tree ;   addr := binding keys joined by '.' (empty = the tree itself) -/
 open Inv Inv.Coll Drv
 
 def S (t : List Char) : String := String.ofList t
@@ -149,6 +153,29 @@ partial def showColl : Coll → String
       "&".intercalate (sortStr (als.map fun (a, k) => S a ++ ">" ++ S k)) ++ ";[" ++
       "".intercalate (sortStr (cs.map fun (k, c) => S k ++ "=" ++ showColl c)) ++ "])"
 
+def addrOf (t : List Char) : List CName := if t.isEmpty then [] else splitOnDot t
+
+/-- one step of a history (`Model/CollectionOps.lean`) -/
+def parseHStep (s : String) : Option HStep :=
+  match s.toList with
+  | kind :: r =>
+    let (ad, rest) := tw (· != '@') r
+    let addr := addrOf ad
+    let body := rest.drop 1
+    match kind with
+    | 'l' => some (.look addr (splitOnDot body))
+    | 'c' => (parseCfg body).map fun (cfg, _) => .op (.configure addr cfg)
+    | 't' =>
+      match (S body).splitOn ":" with
+      | [key, id, als, d] => some (.op (.addTask addr key.toList id.toNat! (splitC ',' als.toList) (d == "1")))
+      | _ => none
+    | 'k' =>
+      let (key, r1) := tw (· != ':') body
+      let (d, r2) := tw (· != ':') (r1.drop 1)
+      (parseColl (r2.drop 1)).map fun (sub, _) => .op (.addColl addr key sub (d == ['1']))
+    | _ => none
+  | [] => none
+
 def query (c : Coll) (q : String) : String :=
   match q.toList with
   | ['N'] => showEntries (taskNames c)
@@ -176,6 +203,10 @@ def query (c : Coll) (q : String) : String :=
       match fromModule c (optName gv) md (ad == ['1']) cfg with
       | .ok c' => showColl c'
       | .error e => showErr e
+  | 'H' :: r =>
+    let steps := ((S r).splitOn "|").map parseHStep
+    if steps.any Option.isNone then "bad-history"
+    else "|".intercalate ((runHist c (steps.filterMap id)).map showLookup)
   | _ => "bad-query"
 
 def step (line : String) : String :=
